@@ -1176,16 +1176,25 @@ func run(c *core.Ctx) {
 	wg.Wait()
 	endPhase("histories_and_fresh_processes")
 
-	// ---- phase 4 (thorough): pairs of deviations, the big grammars as far as the budget allows, and
+	// ---- phase 4 (thorough): tm, pairs of deviations, js as far as the budget allows, and
 	// last (GOMAXPROCS is a vacuous dimension for a pipeline without goroutines) the complete history
 	// enumeration once more under each GOMAXPROCS value.
 	if !c.Quick() {
 		if ctl {
+			// tm before the pairs (a shipped grammar matters more), js after them (it is the most expensive).
+			for _, gi := range big {
+				if !gs[gi].Heavy {
+					a.orderPhase(refdir, refRecs, []int{gi}, dl, covered)
+					endPhase("map_order_" + gs[gi].Name)
+				}
+			}
 			a.pairsPhase(refdir, refRecs, small, dl)
 			endPhase("pairs")
 			for _, gi := range big {
-				a.orderPhase(refdir, refRecs, []int{gi}, dl, covered)
-				endPhase("map_order_" + gs[gi].Name)
+				if gs[gi].Heavy {
+					a.orderPhase(refdir, refRecs, []int{gi}, dl, covered)
+					endPhase("map_order_" + gs[gi].Name)
+				}
 			}
 		}
 		for _, gmp := range []int{1, 2, 16} {
